@@ -305,7 +305,12 @@ func (w *world) protocol(t *rt.Tape, trace bool, res *core.Result, smp *sample, 
 			ea, eb := simnet.Pipe(fmt.Sprintf("G%d", i), fmt.Sprintf("E%d", i), simnet.PipeConfig{AB: ge, BA: eg})
 			diskG, diskE := simdisk.New(), simdisk.New()
 			rt.GoParty("G", fmt.Sprintf("garbler-session-%d", i), func() {
-				defer func() { x.gDone = true; ea.Close() }()
+				defer func() {
+					if !rt.Unwinding() { // blocked tasks are unwound at the end of a run
+						x.gDone = true
+						ea.Close()
+					}
+				}()
 				x.gErr = safe("garbler", func() error {
 					rng := simrand.Stream(fmt.Sprintf("G%d#0", i))
 					m1, gs, err := sha2pc.GarblerRound1(rng, curve)
@@ -380,7 +385,12 @@ func (w *world) protocol(t *rt.Tape, trace bool, res *core.Result, smp *sample, 
 				})
 			})
 			rt.GoParty("E", fmt.Sprintf("evaluator-session-%d", i), func() {
-				defer func() { x.eDone = true; eb.Close() }()
+				defer func() {
+					if !rt.Unwinding() {
+						x.eDone = true
+						eb.Close()
+					}
+				}()
 				x.eErr = safe("evaluator", func() error {
 					rng := simrand.Stream(fmt.Sprintf("E%d#0", i))
 					b1, err := recvMsg(eb)
